@@ -17,4 +17,5 @@ import (
 	_ "verif/props/c13"
 	_ "verif/props/c14"
 	_ "verif/props/c16"
+	_ "verif/props/c17"
 )
